@@ -2767,6 +2767,11 @@ func (s *ImmuStore) ExportTx(txID uint64, allowPrecommitted bool, skipIntegrityC
 		}
 
 		// val
+		err = s.validateValueLen(e.vLen)
+		if err != nil {
+			return nil, err
+		}
+
 		// TODO: improve value reading implementation, get rid of _valBs
 		s._valBsMux.Lock()
 
@@ -3267,14 +3272,29 @@ func (s *ImmuStore) ReadValue(entry *TxEntry) ([]byte, error) {
 		return nil, nil
 	}
 
+	err := s.validateValueLen(entry.vLen)
+	if err != nil {
+		return nil, err
+	}
+
 	b := make([]byte, entry.vLen)
 
-	_, err := s.readValueAt(b, entry.vOff, entry.hVal, false)
+	_, err = s.readValueAt(b, entry.vOff, entry.hVal, false)
 	if err != nil {
 		return nil, err
 	}
 
 	return b, nil
+}
+
+// validateValueLen rejects a stored value length no committed value can have.
+// Value lengths are read from files and are meant to be validated before
+// a buffer of such a size is allocated
+func (s *ImmuStore) validateValueLen(vLen int) error {
+	if vLen > s.maxValueLen {
+		return fmt.Errorf("%w: value length exceeds max value length", ErrCorruptedData)
+	}
+	return nil
 }
 
 // readValueAt fills b with the value referenced by off
